@@ -69,7 +69,26 @@ fn check_alias(c: &SeqCase, obs: &mut Obs) -> Verdict {
     if same != sep {
         return Verdict::Fail(format!("{}: diffing a buffer against itself gives {:?}, against an equal copy {:?}", alg_name(c.alg), same, sep));
     }
-    obs.executions = 2;
+    // two DIFFERENT sequences at one address: the Vec and a transparent view that indexes it back to
+    // front (same address, same size, other items)
+    {
+        let view = Reversed(buf.clone());
+        let n = view.0.len();
+        let rev = guard(|| {
+            let mut r = Recorder::new();
+            algorithms::diff(alg, &mut r, &view.0, 0..n, &view, 0..n).unwrap();
+            r.events
+        });
+        match rev {
+            Ok(e) => {
+                if let Err(m) = validate_raw(&e, 0..n, 0..n, &|i, j| view.0[i] == view.0[n - 1 - j]) {
+                    return Verdict::Fail(format!("{}: a Vec {:?} diffed against a transparent back-to-front view of itself (same address): stream {:?}: {}", alg_name(c.alg), view.0, e, m));
+                }
+            }
+            Err(p) => return Verdict::Fail(format!("diffing a Vec against a back-to-front view of itself: {}", p)),
+        }
+    }
+    obs.executions = 3;
     obs.nontrivial = c.or != nr && c.or.1 > c.or.0 && nr.1 > nr.0;
     obs.class("old and new alias the same buffer");
     Verdict::Pass
@@ -131,6 +150,23 @@ pub fn check_case(c: &SeqCase, obs: &mut Obs) -> Verdict {
                 }
             }
             Err(p) => return Verdict::Fail(format!("{}: the deadline-taking entry points without a deadline: {}", alg_name(c.alg), p)),
+        }
+    }
+    // a re-entrant hook: every delete/insert callback runs a small nested diff with the same
+    // algorithm; the outer stream must be the same
+    if c.old.len() + c.new.len() <= 64 {
+        match guard(|| {
+            let mut h = NestingRecorder::new(alg_of(c.alg));
+            algorithms::diff(alg_of(c.alg), &mut h, &c.old[..], c.old_r(), &c.new[..], c.new_r()).unwrap();
+            (h.rec.events, h.nested_runs)
+        }) {
+            Ok((e, runs)) => {
+                if e != ev {
+                    return Verdict::Fail(format!("{}: with a hook that runs nested diffs from inside its delete/insert callbacks the stream is {:?}, with a plain hook {:?}", alg_name(c.alg), e, ev));
+                }
+                obs.class_if(runs > 0, "re-entrant hook (nested diffs inside callbacks)");
+            }
+            Err(p) => return Verdict::Fail(format!("{} with a re-entrant hook: {}", alg_name(c.alg), p)),
         }
     }
     // the same diff through a range-checked lookup and the per-module entry point
@@ -257,7 +293,7 @@ impl Prop for C01 {
     type Case = SeqCase;
     const ID: &'static str = "C01";
     fn rule() -> String {
-        "cases = (algorithm, old, new, old_range, new_range); generated by (1) size-ordered enumeration of all pairs over a 3-letter alphabet (full range) and all pairs over a 2-letter alphabet x all in-bounds range pairs, (2) proptest mixture (independent small alphabets, mutate(old), periodic, permutations, unique markers, forced common prefix/suffix; sub-ranges with probability 1/2). Each case is diffed 7 ways (slices+ranges, per-module entry over a range-checked lookup, IdentifyDistinct offset lookups, extracted slices, and the three deadline-taking twins called with None); 1 case in 8 instead passes ONE buffer as both old and new with independent ranges (aliasing) and compares with diffing against an equal copy; a stage of fixed large cases (edit distances in the thousands, 20 000 near-identical items, LCS tables of 360 000+ cells) is judged by validity and replay. Non-trivial = both ranges non-empty and the stream has at least one Equal and at least one change; distinct = distinct serialized case.".into()
+        "cases = (algorithm, old, new, old_range, new_range); generated by (1) size-ordered enumeration of all pairs over a 3-letter alphabet (full range) and all pairs over a 2-letter alphabet x all in-bounds range pairs, (2) proptest mixture (independent small alphabets, mutate(old), periodic, permutations, unique markers, forced common prefix/suffix; sub-ranges with probability 1/2). Each case is diffed 7 ways (slices+ranges, per-module entry over a range-checked lookup, IdentifyDistinct offset lookups, extracted slices, and the three deadline-taking twins called with None); 1 case in 8 instead passes ONE buffer as both old and new with independent ranges (aliasing) and compares with diffing against an equal copy, and diffs the Vec against a transparent back-to-front VIEW of itself (two sequences at one address); small cases are also diffed through a RE-ENTRANT hook (nested diffs from inside the callbacks); a stage of fixed large cases (edit distances in the thousands, 20 000 near-identical items, LCS tables of 360 000+ cells) is judged by validity and replay. Non-trivial = both ranges non-empty and the stream has at least one Equal and at least one change; distinct = distinct serialized case.".into()
     }
     fn assumptions() -> Vec<String> {
         vec![
